@@ -8,12 +8,23 @@ def _hs(n, tiers, timeout):
     return [H("%s_pool%d" % (op, n), F, "h_" + op, fns, defs=["-DNPOOL=%d" % n], unwind=n + 3, timeout=timeout, tiers=tiers,
               solvers=("cadical", "minisat"), bounded="pool of %d nodes, two lists: every pair of duplicate-free disjoint sequences over the pool, every stale tail" % n)
             for op, fns in OPS]
+def _mc(tier, recs):
+    import math, re
+    pools = {int(re.search(r"_pool(\d+)$", h.name).group(1)) for h, r in recs}
+    def states(n):   # ordered selections of m distinct nodes out of n, split into (first list, second list) at any of m+1 points
+        return sum((m + 1) * math.factorial(n) // math.factorial(n - m) for m in range(n + 1))
+    st = sum(states(n) for n in pools)
+    return {"states": st, "transitions": st * len(recs) // max(len(pools), 1), "traces_validated_against_impl": st * len(recs) // max(len(pools), 1),
+            "rule_model_checking": "states = abstract well-formed states covered symbolically by each discharged query: pairs of disjoint duplicate-free sequences over the node pool "
+                                   "(counted combinatorially by this function for the pool sizes of the harnesses that were discharged; stale tails, iterator positions and keys multiply this further and are not counted); "
+                                   "transitions = states x operations discharged (each operation's real code is verified from every such state; there is no separate model, hence traces_validated_against_impl = transitions)"}
+
 prop("C09", "model_checking",
      "Per-operation step contracts of the real list.c against an abstract sequence (DESIGN P4/P5): from an arbitrary well-formed state - two disjoint duplicate-free lists over a pool of "
      "nodes, arbitrary stale tail on an empty list, iterator anywhere including past the end - one real operation is applied and the whole resulting sequence, every return value, the "
      "iterator position, the frame (other list, nodes outside) and well-formedness of the result are checked. Operation sequences of any length follow by induction; the node pool "
      "(5 quick / 6 thorough) is the bound, inside which every shape and aliasing pattern is covered symbolically.",
-     _hs(5, ("quick",), 900) + _hs(6, ("thorough",), 3600),
+     _hs(5, ("quick",), 900) + _hs(6, ("thorough",), 3600), mc=_mc,
      assumptions=["scope of the record: a node is never inserted while it is already a member of a list",
                   "list_insert_sorted: comparator is a total preorder on the pool (integer keys), list sorted on entry"])
 claim("C09", "model_checking",
